@@ -235,6 +235,13 @@ def gen_sorted(tier, seed):
                     tab = {"h": ["a", "b", "id"], "r": [[k[0], k[1], i] for i, k in enumerate(keys)]}
                     for cols, rev in SORT_ARGS2:
                         yield [tab, cols, rev]
+    # beyond the frontier, deterministic: long runs of equal keys (16, 17, 24 rows)
+    for n in (16, 17, 24):
+        for a, b in ((0, 0), (0, 1), ("x", "x"), ("x", "y")):
+            for keys in ([a] * n, [a if i % 2 == 0 else b for i in range(n)], [a if i < n // 2 else b for i in range(n)]):
+                tab = {"h": ["a", "id"], "r": [[k, i] for i, k in enumerate(keys)]}
+                yield [tab, "a", None]
+                yield [tab, ["a"], ["a"]]
     # beyond the frontier: 5..40 rows, 1..3 key columns, random directions (seeded)
     rnd = random.Random(seed * 7919 + 20)
     alphas = list(SORT_ALPHA1.values())[:5] + [[0, 1], ["x", "y", "xy"], [1.0, 2.0, 3.0, 4.0]]
@@ -882,16 +889,7 @@ def loads_for(lab):
 def gen_roundtrip(tier, seed):
     thorough = tier == "thorough"
     labels = list(IO)
-    # (a) two-row tables with one text column carrying the cell corpus
-    for c1 in RT_CELLS:
-        for c2 in RT_CELLS:
-            if not thorough and RT_CELLS.index(c1) > RT_CELLS.index(c2):
-                continue
-            tab = {"h": ["k", "v", "n"], "r": [[c1, "z", 1], [c2, "y", 2]]}
-            for lab in labels:
-                for load in loads_for(lab):
-                    yield [lab, load, tab]
-    # (b) one-cell tables (the minimal witnesses), and 0-row tables
+    # (a) one-cell tables (the minimal witnesses), and 0-row tables
     for c in RT_CELLS:
         for lab in labels:
             for load in loads_for(lab):
@@ -900,13 +898,22 @@ def gen_roundtrip(tier, seed):
         for lab in labels:
             for load in loads_for(lab):
                 yield [lab, load, {"h": h, "r": []}]
+    # (b) two-row tables with one text column carrying the cell corpus
+    for c1 in RT_CELLS:
+        for c2 in RT_CELLS:
+            if not thorough and RT_CELLS.index(c1) > RT_CELLS.index(c2):
+                continue
+            tab = {"h": ["k", "v", "n"], "r": [[c1, "z", 1], [c2, "y", 2]]}
+            for lab in labels:
+                for load in loads_for(lab):
+                    yield [lab, load, tab]
     # (c) typed columns: every choice of <=3 columns x 1..4 rows
     names = list(RT_COLS)
     for ncol in (1, 2, 3):
         for combo in itertools.product(names, repeat=ncol):
             if ncol == 3 and not thorough and (names.index(combo[0]) + names.index(combo[1]) + names.index(combo[2])) % 6:
                 continue
-            for n in ((1, 2, 3, 4) if thorough or ncol < 3 else (2, 4)):
+            for n in ((1, 2, 3, 4) if ncol < 3 else (2, 4)):
                 for hi, h in enumerate(RT_HEADERS):
                     if hi and (ncol != 3 or n != 4):
                         continue
@@ -1036,8 +1043,8 @@ BOUNDED = {
         "functions": ["Table.sorted"],
         "bound": "1..4 rows (quick 1..3): one key column over 7 value kinds (int, float, str with prefix pairs and "
                  "empty, str beyond latin-1, bool, mixed numbers, missing) with and without a mixed payload column, "
-                 "13 (columns, reverse) forms; two key columns over 5x5 kind pairs, 18 forms; seeded sample of "
-                 "5..40 rows x 1..3 keys (quick 200, thorough 3000)",
+                 "13 (columns, reverse) forms; two key columns over 5x5 kind pairs, 18 forms; beyond the frontier: runs of "
+                 "equal keys in 16, 17 and 24 rows, and a seeded sample of 5..40 rows x 1..3 keys (quick 200, thorough 3000)",
         "rule": "a case = (table, columns, reverse); expected rows from successive stable list sorts; skipped when the "
                 "key values are not mutually ordered; non-trivial when the table has >= 2 rows; distinct by hash",
     },
@@ -1068,7 +1075,8 @@ BOUNDED = {
                       "Table.__getitem__"],
         "bound": "appended: 0..2 rows + 0..2 rows over 5x5 column-kind pairs, 4 call forms, columns permuted; "
                  "transposed: 0..4 rows (quick 0..3), 4 kinds of header column x cells {1,'x',None}, 3 select forms; "
-                 "get_columns: 0..3 rows, every ordered subset of 3 columns, str form, with/without index; "
+                 "get_columns: 0..3 rows over 4 row values (one with a missing first cell), every ordered subset of 3 "
+                 "columns, str form, with/without index_name; "
                  "with_new_column: 0..3 rows over 4 row corpora x 11 derivations; seeded sample of larger tables",
         "rule": "a case = (method, arguments, tables); non-trivial when the inputs have rows; distinct by hash",
     },
@@ -1080,7 +1088,8 @@ BOUNDED = {
         "bound": "12 write/read pairs (tsv, csv, .gz, compress=True, sep ; and |, format=csv, json, pickle, and the text "
                  "of to_csv/to_tsv) x 2 readers for delimited files (default, static_column_types); tables: all pairs of "
                  "23 text cells (delimiters, quotes, empty, padded, number-like, names) in a 2x3 table, every 1x1 "
-                 "table, 0-row tables, every choice of <=3 of 12 typed columns x 1..4 rows x 3 headers; seeded "
+                 "table, 0-row tables, every choice of <=3 of 12 typed columns (quick: a sixth of the triples) x 1..4 rows "
+                 "(triples: 2 and 4) x 3 headers; seeded "
                  "sample up to 8 rows x 4 columns",
         "rule": "a case = (write/read pair, reader, table); same header, same cell text (numbers compared by value, a "
                 "missing value may come back as empty text), int/float columns come back numeric; non-trivial when "
